@@ -292,6 +292,15 @@ func genRename(prop string, seed uint64, run int, tier string) *Scenario {
 			}
 		}
 	}
+	if g.chance(0.25) {
+		// the watch of a source directory is removed (and sometimes added again)
+		// between the two halves of moves out of it
+		d := []string{"a", "b"}[g.r.Intn(2)]
+		cl = append(cl, Op{K: OpYield}, Op{K: OpRemove, P: d})
+		if g.chance(0.5) {
+			cl = append(cl, Op{K: OpYield}, Op{K: OpAdd, P: d})
+		}
+	}
 	sc.Setup = setup
 	for t, ops := range scripts {
 		sc.Tasks = append(sc.Tasks, TaskScript{Name: fmt.Sprintf("world%d", t), Role: "world", Ops: ops})
@@ -477,6 +486,11 @@ func genConc(prop string, seed uint64, run int, tier string) *Scenario {
 		}
 	}
 	sc.Setup = setup
+	if g.chance(0.2) {
+		// consumer pacing, with a kernel queue that overflows: an error is waiting on Errors while the calls run
+		sc.Cfg.QueueLimit = 2 + g.r.Intn(10)
+		sc.Cfg.Consumers = []ConsumerCfg{{Mode: []string{"both", "events", "none", "stop"}[g.r.Intn(4)], StopN: g.r.Intn(4)}}
+	}
 	nclients := 2 + g.r.Intn(3)
 	closer := -1
 	if g.chance(0.3) {
@@ -679,7 +693,14 @@ func genRecurse(prop string, seed uint64, run int, tier string) *Scenario {
 					}
 				}
 				if leaf {
-					ops = append(ops, Op{K: OpRmRF, P: d})
+					if removed == "" && g.chance(0.3) {
+						// ... and the recursive watch is removed before the reader has seen
+						// the directory go (inotify_rm_watch of that descriptor fails)
+						removed = r
+						ops = append(ops, Op{K: OpRmRF, P: d, NQ: true}, Op{K: OpRemove, P: r, Rec: true})
+					} else {
+						ops = append(ops, Op{K: OpRmRF, P: d})
+					}
 					var nd []string
 					for _, x := range ds {
 						if x != d {
